@@ -1,19 +1,24 @@
 #!/bin/bash
 # Re-run every kept seeded change against its property's quick check (scratch worktree + VERIF_REPO).
 # usage: tools/seeded_all.sh [name-glob]   -> table on stdout and /verif/seeded/RESULTS.md
+# LANES (default 4) seeds run at once, each check with JOBS (default 4) workers.
 cd /verif
 OUT=/verif/seeded/RESULTS.md
-echo "| seeded change | property | check exit | violations | wall |" > $OUT.tmp
-echo "|---|---|---|---|---|" >> $OUT.tmp
-for d in seeded/${1:-*}/; do
-  n=$(basename $d); [ -f $d/patch.diff ] || continue
+R=$(mktemp -d /tmp/seeded-all-XXXXXX)
+one() {
+  d=$1; R=$2
+  n=$(basename $d); [ -f $d/patch.diff ] || exit 0
   prop=$(python3 -c "import json;print(json.load(open('$d/meta.json'))['property'])")
   W=$(mktemp -d /tmp/sw-XXXXXX); rmdir $W
   git -C /repo worktree add -q --detach $W HEAD
-  if ! git -C $W apply $d/patch.diff 2>/dev/null; then echo "| $n | $prop | PATCH-DOES-NOT-APPLY | | |" >> $OUT.tmp; git -C /repo worktree remove --force $W; continue; fi
-  O=$(VERIF_REPO=$W ./check $prop --jobs "${JOBS:-12}" 2>&1); RC=$?
+  if ! git -C $W apply /verif/$d/patch.diff 2>/dev/null; then echo "| $n | $prop | PATCH-DOES-NOT-APPLY | | |" > $R/$n; git -C /repo worktree remove --force $W; exit 0; fi
+  O=$(VERIF_REPO=$W ./check $prop --jobs "${JOBS:-4}" 2>&1); RC=$?
   L=$(echo "$O" | grep -E "^C[0-9]+ tier")
-  echo "| $n | $prop | $RC | $(echo $L | sed 's/.*violations=\([0-9]*\).*/\1/') | $(echo $L | sed 's/.*wall=//') |" | tee -a $OUT.tmp
+  [ $RC = 1 ] || echo "$O" | tail -60 > /verif/.seeded_all.$n.out
+  echo "| $n | $prop | $RC | $(echo $L | sed 's/.*violations=\([0-9]*\).*/\1/') | $(echo $L | sed 's/.*wall=//') |" | tee $R/$n
   git -C /repo worktree remove --force $W; rm -rf $W-dll
-done
-mv $OUT.tmp $OUT
+}
+export -f one
+ls -d seeded/${1:-*}/ | xargs -P "${LANES:-4}" -I{} bash -c 'one {} '$R
+{ echo "| seeded change | property | check exit | violations | wall |"; echo "|---|---|---|---|---|"; cat $R/* ; } > $OUT
+rm -rf $R; git -C /repo worktree prune
